@@ -344,6 +344,10 @@ def gen_plan(S, index, tier):
     off = pair_runs + sweep_runs + sandwich_runs + lazy_runs + same_runs
     if index < off + long_runs:
         return _gen_long_plan(S, index - off, header, opnames)
+    off += long_runs
+    retype_runs = len(queries) * len(world.FIXED_SPECS)
+    if index < off + retype_runs:
+        return _gen_retype_plan(S, index - off, header, queries)
     plan = _gen_random_plan(S, header, tier)
     if index % 8 == 3:
         plan['header']['cold'] = True      # restart fault: this run executes in a process that has run nothing
@@ -399,6 +403,50 @@ def _gen_long_plan(S, k, header, opnames):
             for _ in range(3):
                 events.append({'act': 'step', 'client': 0, 'lazy': rh})
             events.append({'act': 'close', 'client': 0, 'lazy': rh})
+    return {'header': header, 'pool': pool, 'events': events}
+
+
+def _gen_retype_plan(S, k, header, queries):
+    """equal but differently typed: a query, then the client rewrites the numbers in the objects it passed in the
+    other numeric type (-18.0 -> -18, Mod(1, 1) -> Mod(1.0, 1): same value, same hash), then the same query again -
+    compared with the same call on fresh objects in the pristine process (a memo keyed by == / hash answers the second
+    call with what it stored for the first)"""
+    si, qi = divmod(k, len(queries))
+    name = queries[qi]
+    o = OPS[name]
+    cfg = SP.swarm_cfg(S)
+    sp = copy.deepcopy(world.FIXED_SPECS[si % len(world.FIXED_SPECS)])
+    short = copy.deepcopy(world.FIXED_SPECS[3])
+    pool, W = _mk_world(S, cfg, [sp, short], ['parse', 'parse'], 'quick')
+    header.update({'mode': 'retype', 'op': name, 'spec': si, 'clients': 1, 'faults': ['owneredit']})
+    events = []
+    args = None
+    best = -1
+    for _ in range(10):       # prefer the argument set that passes the most caller-owned lists / dictionaries
+        cand = o.gen(S, W)
+        if cand is not None:
+            score = sum(1 for a in cand.values() if 'h' in a and a['h'][0] not in 'AS')
+            if score > best:
+                args, best = cand, score
+    if args is None:
+        return {'header': header, 'pool': pool, 'events': events}
+    if 'size' not in args and 'max_mods' not in args:
+        for an, av in args.items():
+            if isinstance(av, dict) and av.get('h') in ('A1', 'S0') and an in ('sequence', 'self'):
+                args[an] = {'h': 'A0'}
+    events.append({'act': 'call', 'client': 0, 'op': name, 'args': args, 'out': 'R0', 'twin_first': S.coin(0.5)})
+    if o.lazy:
+        events.append({'act': 'drain', 'client': 0, 'lazy': 'R0'})
+    for h in sorted(set(a['h'] for a in args.values() if 'h' in a and a['h'][0] != 'S')):
+        events.append({'act': 'owneredit', 'client': 0, 'h': h, 'k': 4, 'only': 'retype'})
+    args2 = copy.deepcopy(args)
+    for an, av in args2.items():
+        if 'v' in av and isinstance(av['v'], float) and av['v'] == int(av['v']) and abs(av['v']) < 1e9:
+            av['v'] = int(av['v'])
+    events.append({'act': 'call', 'client': 0, 'op': name, 'args': args2, 'out': 'R1', 'twin_first': False,
+                   'pristine': True})
+    if o.lazy:
+        events.append({'act': 'drain', 'client': 0, 'lazy': 'R1'})
     return {'header': header, 'pool': pool, 'events': events}
 
 
@@ -634,7 +682,7 @@ def _gen_pair_plan(S, index, header, opnames):
         rh = f'R{nres}'
         nres += 1
         events.append({'act': 'call', 'client': c, 'op': name, 'args': args, 'out': rh, 'twin_first': S.coin(0.5),
-                       'pristine': c == 1 and S.coin(0.06)})
+                       'pristine': c == 1 and S.coin(0.25)})
         W['results'][rh] = name
         if o.lazy:
             events.append({'act': 'drain', 'client': c, 'lazy': rh})
@@ -717,8 +765,10 @@ def _gen_random_plan(S, header, tier):
             rh = f'R{nres}'
             nres += 1
             events.append({'act': 'call', 'client': client, 'op': name, 'args': args, 'out': rh,
-                           'twin_first': S.coin(0.5), 'pristine': S.coin(0.05),
+                           'twin_first': S.coin(0.5), 'pristine': S.coin(0.3),
                            'ref': 'pristine' if S.coin(0.04) else None})
+            if any(e['act'] == 'owneredit' for e in events[-3:]):
+                events[-1]['pristine'] = True     # the call right after the client edited its own object
             if 'warnerr' in faults and not OPS[name].lazy and S.coin(0.35):
                 events[-1]['warnerr'] = True       # the client runs with warnings turned into errors (-W error)
             W['results'][rh] = name
@@ -1140,8 +1190,55 @@ def _do_call(run, ev_i, ev, touched):
     return False
 
 
-def _owner_edit(obj, k):
+def _retyped(v):
+    """the same number in the other numeric type (-18.0 <-> -18), or None"""
+    if isinstance(v, bool):
+        return None
+    if isinstance(v, float) and v == int(v) and abs(v) < 1e9:
+        return int(v)
+    if isinstance(v, int):
+        return float(v)
+    return None
+
+
+def _owner_edit(obj, k, only=None):
     """an in-domain, in-place edit of a caller-owned list / dict / config object; returns a description or None"""
+    how = _owner_retype(obj) if k % 5 == 4 else None
+    if how is not None or only == 'retype':
+        return how
+    return _owner_edit_other(obj, k)
+
+
+def _owner_retype(obj):
+    if True:
+        # equal-but-differently-typed: the client now writes -18 where it wrote -18.0 (same value, same hash)
+        if isinstance(obj, list):
+            for i, el in enumerate(obj):
+                if isinstance(el, (tuple, list)):
+                    new = [(_retyped(x) if _retyped(x) is not None else x) for x in el]
+                    if any(type(a) is not type(b) for a, b in zip(new, el)):
+                        obj[i] = tuple(new) if isinstance(el, tuple) else new
+                        return 'list.element-retyped'
+                elif isinstance(el, pt.Mod) and _retyped(el.val) is not None:
+                    el.val = _retyped(el.val)
+                    return 'list.mod.val-retyped'
+                elif _retyped(el) is not None:
+                    obj[i] = _retyped(el)
+                    return 'list.element-retyped'
+        elif isinstance(obj, dict):
+            for key, v in obj.items():
+                if _retyped(v) is not None:
+                    obj[key] = _retyped(v)
+                    return 'dict.value-retyped'
+        elif isinstance(obj, pt.ProFormaAnnotation):
+            for node in N.mutable_nodes(obj).values():
+                if isinstance(node, pt.Mod) and _retyped(node.val) is not None:
+                    node.val = _retyped(node.val)
+                    return 'ann:mod.val-retyped'
+    return None
+
+
+def _owner_edit_other(obj, k):
     if isinstance(obj, list) and obj:
         how = k % 4
         if how == 0:
@@ -1200,7 +1297,7 @@ def _do_owner_edit(run, ev_i, ev):
     out = run.out
     h = ev['h']
     obj = run.pool.get(h)
-    how = _owner_edit(obj, ev['k']) if obj is not None else None
+    how = _owner_edit(obj, ev['k'], ev.get('only')) if obj is not None else None
     if how is None:
         out.record([ev_i, 'noop'])
         return False
@@ -1470,7 +1567,9 @@ RULE = (f"catalogue of {len(OPS)} ops ({len(OPS) - len(catalog.EDITORS)} queries
         "the pristine process), the lazy result drained or abandoned, the query again (second pass in cold processes); next l*8: same-call - two clients make "
         "the same lazy call on one object / on two unrelated objects of equal length and consume interleaved, the later "
         "overtaking the earlier, in a cold process; next n: long - every op once, twice in a row, on a protein-sized "
-        "(520-1100 residues) shared annotation in a cold process; other indices (every 8th in a cold process): seeded random history of 2-12 catalogue calls by 1-3 clients on 1-4 shared generated "
+        "(520-1100 residues) shared annotation in a cold process; next q*5: retype - a query, the client rewrites the "
+        "numbers in the objects it passed in the other numeric type (equal value, equal hash), the same query again, "
+        "compared with the pristine process; other indices (every 8th in a cold process): seeded random history of 2-12 catalogue calls by 1-3 clients on 1-4 shared generated "
         "annotations plus shared list/dict arguments, with interleaved single steps / abandonment of lazy results, scribbles "
         "on returned values, RNG use, vocabulary refresh, poisoned modifications, in-place edits by the client of its own "
         "list/dict arguments between calls, calls under warnings-as-errors, per-run swarm switches; ~5% of the calls "
@@ -1486,7 +1585,8 @@ STATE_MEASURE = 'dump of every shared annotation in the pool after the event'
 FAMILY_STARTS = [0, _NOPS * _NOPS * 5, _NOPS * _NOPS * 5 + _NOPS * 15, _NOPS * _NOPS * 5 + _NOPS * 15 + _NQ * 10,
                  _NOPS * _NOPS * 5 + _NOPS * 15 + _NQ * 10 + _NL * _NQ * 2,
                  _NOPS * _NOPS * 5 + _NOPS * 15 + _NQ * 10 + _NL * _NQ * 2 + _NL * 8,
-                 _NOPS * _NOPS * 5 + _NOPS * 15 + _NQ * 10 + _NL * _NQ * 2 + _NL * 8 + _NOPS]
+                 _NOPS * _NOPS * 5 + _NOPS * 15 + _NQ * 10 + _NL * _NQ * 2 + _NL * 8 + _NOPS,
+                 _NOPS * _NOPS * 5 + _NOPS * 15 + _NQ * 10 + _NL * _NQ * 2 + _NL * 8 + _NOPS + _NQ * 5]
 ASSUMPTIONS = [
     "field accessors (properties, has_*, get_internal_mods_by_index) and Fragment.parent_sequence are references into "
     "the object by design and are not treated as 'results' for the aliasing clause",
